@@ -391,4 +391,385 @@ theorem lstep_coherent (L : LZ) (op : LOp) (hc : LCoherent L)
               rw [he] at this
               exact ⟨bs, dv, this, fun _ => hsd'⟩
 
+
+/-! ### the dim names of a stack stay readable
+
+`stack.names` raises when the members disagree ("Not all dim names match"). No operation of the model makes them disagree:
+`set` / `del_` / `rename_key_` do not touch the dim names of the members themselves, a names assignment gives every member the
+same names or — refused — gives them all back (`_dim_names_snapshot`), `insert` / `append` compare or adopt the names. -/
+
+/-- all members carry the same dim names -/
+def NamesAgree (L : LZ) : Prop := ∃ ns, ∀ x ∈ L.members, x.namesList = ns
+
+theorem namesAgree_iff_readable (L : LZ) : NamesAgree L ↔ ∃ ns, L.names = .ok ns := by
+  unfold NamesAgree LZ.names
+  cases L.members with
+  | nil => simp
+  | cons m r =>
+    simp only []
+    constructor
+    · rintro ⟨ns, h⟩
+      have hall : (r.all fun m' => m'.namesList == m.namesList) = true := by
+        rw [List.all_eq_true]
+        intro x hx
+        have h1 := h x (List.mem_cons_of_mem _ hx)
+        have h2 := h m (by simp)
+        simp [h1, h2]
+      rw [if_pos hall]
+      exact ⟨_, rfl⟩
+    · rintro ⟨ns, h⟩
+      split at h
+      · rename_i hall
+        rw [List.all_eq_true] at hall
+        refine ⟨m.namesList, ?_⟩
+        intro x hx
+        simp only [List.mem_cons] at hx
+        rcases hx with rfl | hx
+        · rfl
+        · simpa using hall x hx
+      · simp at h
+
+theorem setPath_namesList (b : Bool) (p : Path) (v m : M) (h : b = true ∨ 2 ≤ p.length) :
+    (setPath b p v m).1.namesList = m.namesList := by
+  cases m with
+  | leaf s d =>
+    match p with
+    | [] => simp [setPath]
+    | _ :: _ => simp [setPath]
+  | node bs dv ns kids =>
+    match p with
+    | [] => simp [setPath]
+    | [k] =>
+      rcases h with rfl | h
+      · simp [setPath, M.namesList]
+      · simp at h
+    | k :: k2 :: rest =>
+      simp only [setPath]
+      split <;> simp [M.namesList]
+
+theorem delPath_namesList (p : Path) (m : M) : (delPath p m).1.namesList = m.namesList := by
+  cases m with
+  | leaf s d =>
+    match p with
+    | [] => simp [delPath]
+    | _ :: _ => simp [delPath]
+  | node bs dv ns kids =>
+    match p with
+    | [] => simp [delPath, M.namesList]
+    | [k] => simp only [delPath]; split <;> simp [M.namesList]
+    | k :: k2 :: rest => simp only [delPath]; split <;> simp [M.namesList]
+
+theorem renamePath_namesList (old new : Path) (m : M) : (renamePath old new m).1.namesList = m.namesList := by
+  unfold renamePath
+  split
+  · rfl
+  · split
+    · split <;> rfl
+    · split
+      · rfl
+      · split
+        · rfl
+        · rename_i v hv
+          split
+          · cases hd : delPath old m with
+            | mk t1 o1 =>
+              have h1 : t1.namesList = m.namesList := by have := delPath_namesList old m; rw [hd] at this; exact this
+              cases o1 with
+              | err e => exact h1
+              | ok => exact (setPath_namesList true new v t1 (Or.inl rfl)).trans h1
+          · rename_i hnew
+            simp only []
+            have hb : (decide (new.length = 1) || isPrefix new.dropLast old) = true ∨ 2 ≤ new.length := by
+              by_cases h1 : new.length = 1
+              · left; simp [h1]
+              · right
+                cases new with
+                | nil => simp_all
+                | cons a t =>
+                  cases t with
+                  | nil => simp at h1
+                  | cons b t' => simp
+            cases hs : setPath (decide (new.length = 1) || isPrefix new.dropLast old) new v m with
+            | mk t1 o1 =>
+              have h1 : t1.namesList = m.namesList := by
+                have := setPath_namesList (decide (new.length = 1) || isPrefix new.dropLast old) new v m hb
+                rw [hs] at this; exact this
+              cases o1 with
+              | err e => exact h1
+              | ok =>
+                simp only []
+                split
+                · exact h1
+                · exact (delPath_namesList old t1).trans h1
+
+theorem setMember_namesList (k : String) (rest : Path) (piece m : M) : (setMember k rest piece m).1.namesList = m.namesList := by
+  cases rest with
+  | nil => cases m <;> simp [setMember, M.namesList]
+  | cons a t =>
+    simp only [setMember]
+    exact setPath_namesList false _ piece _ (Or.inr (by simp))
+
+theorem eachMember_namesList (f : M → M × Out) (hf : ∀ m, (f m).1.namesList = m.namesList) (ms : List M) :
+    (eachMember f ms).1.map M.namesList = ms.map M.namesList := by
+  induction ms with
+  | nil => simp [eachMember]
+  | cons m r ih =>
+    simp only [eachMember]
+    have hm := hf m
+    cases hfm : f m with
+    | mk m' o =>
+      rw [hfm] at hm
+      cases o with
+      | err e => simp [hm]
+      | ok =>
+        cases hr : eachMember f r with
+        | mk r' o' => rw [hr] at ih; simp at ih; simp [hm, ih]
+
+theorem delLoop_namesList (key : Path) (ms : List M) (d : Bool) (e : Option Err) :
+    (delLoop key ms d e).1.map M.namesList = ms.map M.namesList := by
+  induction ms generalizing d e with
+  | nil => simp [delLoop]
+  | cons m r ih =>
+    simp only [delLoop]
+    have hm := delPath_namesList key m
+    cases hd : delPath key m with
+    | mk m' o =>
+      rw [hd] at hm
+      cases o with
+      | ok =>
+        simp only []
+        have := ih true e
+        cases hr : delLoop key r true e with
+        | mk r' rest => obtain ⟨d', e', x⟩ := rest; rw [hr] at this; simp at this; simp [hm, this]
+      | err er =>
+        cases er <;> simp only [] <;>
+          first
+          | (have := ih d (some .key)
+             cases hr : delLoop key r d (some .key) with
+             | mk r' rest => obtain ⟨d', e', x⟩ := rest; rw [hr] at this; simp at this; simp [hm, this])
+          | simp [hm]
+
+theorem agree_of_map {ms ms' : List M} {ns : DimNames} (hmap : ms'.map M.namesList = ms.map M.namesList)
+    (h : ∀ x ∈ ms, x.namesList = ns) : ∀ x ∈ ms', x.namesList = ns := by
+  intro x hx
+  have : x.namesList ∈ ms'.map M.namesList := List.mem_map_of_mem hx
+  rw [hmap, List.mem_map] at this
+  obtain ⟨y, hy, hyx⟩ := this
+  rw [← hyx]; exact h y hy
+
+theorem eachMember_ok (f : M → M × Out) (ms ms' : List M) (h : eachMember f ms = (ms', .ok)) :
+    ∀ x' ∈ ms', ∃ x ∈ ms, f x = (x', .ok) := by
+  induction ms generalizing ms' with
+  | nil => simp [eachMember] at h; subst h; simp
+  | cons m r ih =>
+    simp only [eachMember] at h
+    cases hfm : f m with
+    | mk m' o =>
+      rw [hfm] at h
+      cases o with
+      | err e => simp at h
+      | ok =>
+        cases hr : eachMember f r with
+        | mk r' o' =>
+          rw [hr] at h
+          simp at h
+          obtain ⟨rfl, rfl⟩ := h
+          intro x' hx'
+          simp only [List.mem_cons] at hx'
+          rcases hx' with rfl | hx'
+          · exact ⟨m, by simp, hfm⟩
+          · obtain ⟨x, hx, hfx⟩ := ih r' hr x' hx'
+            exact ⟨x, List.mem_cons_of_mem _ hx, hfx⟩
+
+/-- the dim names a member reads after an accepted names assignment: a function of the assigned names and of the number of
+batch dims only -/
+def namesAfter (v : Option DimNames) (n : Nat) : DimNames :=
+  match v with
+  | none => List.replicate n none
+  | some l => if namesCheck l n = .erase then List.replicate n none else l
+
+theorem setNamesM_ok_namesList (v : Option DimNames) (bs dv ns kids) (m' : M)
+    (h : setNamesM v (.node bs dv ns kids) = (m', .ok)) : m'.namesList = namesAfter v bs.length := by
+  cases v with
+  | none => simp [setNamesM] at h; subst h; simp [M.namesList, namesAfter]
+  | some l =>
+    simp only [setNamesM] at h
+    split at h
+    · rename_i hc
+      simp at h; subst h; simp [M.namesList, namesAfter, hc]
+    · simp at h
+    · rename_i hc
+      split at h
+      · simp at h
+      · simp at h; subst h; simp [M.namesList, namesAfter, hc]
+
+theorem countNone_le (v : DimNames) : countNone v ≤ v.length := by
+  unfold countNone; exact List.length_filter_le _ _
+
+theorem all_none_of_count (v : DimNames) (h : countNone v = v.length) : v = List.replicate v.length none := by
+  induction v with
+  | nil => rfl
+  | cons a t ih =>
+    cases a with
+    | none =>
+      have : countNone t = t.length := by simp [countNone] at h ⊢; exact h
+      simp [List.replicate_succ, ← ih this]
+    | some s =>
+      have h1 := countNone_le t
+      simp [countNone] at h h1
+      omega
+
+theorem eachMember_out_ok (f : M → M × Out) (ms : List M) (h : ∀ x ∈ ms, (f x).2 = .ok) : (eachMember f ms).2 = .ok := by
+  induction ms with
+  | nil => simp [eachMember]
+  | cons m r ih =>
+    simp only [eachMember]
+    have hm := h m (by simp)
+    cases hfm : f m with
+    | mk m' o =>
+      rw [hfm] at hm
+      simp at hm; subst hm
+      simp only []
+      have := ih (fun x hx => h x (List.mem_cons_of_mem _ hx))
+      cases hr : eachMember f r with
+      | mk r' o' => rw [hr] at this; simpa using this
+
+theorem namesCheck_erase {v : DimNames} {n : Nat} (h : namesCheck v n = .erase) : countNone v = n := by
+  by_cases h0 : countNone v = n
+  · exact h0
+  · exfalso
+    unfold namesCheck at h
+    simp only [h0, if_false] at h
+    repeat' split at h
+    all_goals simp at h
+
+theorem namesList_length {bs dv ns kids} (h : Coherent (.node bs dv ns kids)) : (M.node bs dv ns kids).namesList.length = bs.length := by
+  simp only [M.namesList]
+  cases ns with
+  | none => simp
+  | some l => simp [h.names_len l rfl]
+
+/-- no operation on a coherent stack whose dim names can be read makes them unreadable -/
+theorem lstep_namesAgree (L : LZ) (op : LOp) (hc : LCoherent L) (ha : NamesAgree L) : NamesAgree (lstep L op).1 := by
+  obtain ⟨bs, dv, hgood, hsd⟩ := hc
+  obtain ⟨ns, hns⟩ := ha
+  cases op with
+  | setBatch nb => exact ⟨ns, hns⟩
+  | rename o n =>
+    simp only [lstep, renameL]
+    have := eachMember_namesList (renamePath o n) (renamePath_namesList o n) L.members
+    cases he : eachMember (renamePath o n) L.members with
+    | mk ms o' => rw [he] at this; exact ⟨ns, agree_of_map this hns⟩
+  | del key =>
+    simp only [lstep, delL]
+    have := delLoop_namesList key L.members false none
+    cases hd : delLoop key L.members false none with
+    | mk ms rest =>
+      rw [hd] at this
+      have hres : NamesAgree { L with members := ms } := ⟨ns, agree_of_map this hns⟩
+      obtain ⟨b, e1, e2⟩ := rest
+      cases e2 <;> cases b <;> cases e1 <;> exact hres
+  | set key s d =>
+    simp only [lstep, setL]
+    cases key with
+    | nil => exact ⟨ns, hns⟩
+    | cons k rest =>
+      simp only []
+      cases hvs : valShape L.batchSize (.leaf s d) with
+      | error e => exact ⟨ns, hns⟩
+      | ok v1 =>
+        simp only []
+        cases hvd : valDev L.device v1 with
+        | error e => exact ⟨ns, hns⟩
+        | ok v2 =>
+          simp only []
+          have := eachMember_namesList (setMember k rest (unbindLeaf L.sd v2)) (setMember_namesList k rest _) L.members
+          cases he : eachMember (setMember k rest (unbindLeaf L.sd v2)) L.members with
+          | mk ms o' => rw [he] at this; exact ⟨ns, agree_of_map this hns⟩
+  | setNames v =>
+    simp only [lstep, setNamesL]
+    have key : ∀ w ms, eachMember (setNamesM w) L.members = (ms, .ok) → ∀ x ∈ ms, x.namesList = namesAfter w bs.length := by
+      intro w ms he x' hx'
+      obtain ⟨x, hx, hfx⟩ := eachMember_ok _ _ _ he x' hx'
+      have hg := hgood x hx
+      obtain ⟨xbs, xns, xk, rfl⟩ := good_device hg
+      have hxb : xbs = bs := hg.2.2.1
+      rw [← hxb]
+      exact setNamesM_ok_namesList w xbs dv xns xk x' hfx
+    cases v with
+    | none =>
+      simp only []
+      have hok : (eachMember (setNamesM none) L.members).2 = .ok := by
+        apply eachMember_out_ok
+        intro x hx
+        obtain ⟨xbs, xns, xk, rfl⟩ := good_device (hgood x hx)
+        simp [setNamesM]
+      cases he : eachMember (setNamesM none) L.members with
+      | mk ms o =>
+        rw [he] at hok
+        simp at hok; subst hok
+        exact ⟨_, key none ms he⟩
+    | some l =>
+      simp only []
+      split
+      · exact ⟨ns, hns⟩
+      · split
+        · exact ⟨ns, hns⟩
+        · cases he : eachMember (setNamesM (some (l.eraseIdx L.sd))) L.members with
+          | mk ms o =>
+            cases o with
+            | ok => exact ⟨_, key _ ms he⟩
+            | err e => exact ⟨ns, hns⟩
+  | insert i m =>
+    simp only [lstep, insertL]
+    cases m with
+    | leaf s d => exact ⟨ns, hns⟩
+    | node mbs mdv mns mkids =>
+      simp only []
+      cases hm : L.members with
+      | nil =>
+        simp only []
+        exact ⟨(M.node mbs mdv mns mkids).namesList, by intro x hx; simp at hx; subst hx; rfl⟩
+      | cons first r =>
+        simp only []
+        have hf := hgood first (by rw [hm]; simp)
+        obtain ⟨fbs, fns, fk, rfl⟩ := good_device hf
+        simp only []
+        have hns' : ∀ x ∈ M.node fbs dv fns fk :: r, x.namesList = ns := by rw [← hm]; exact hns
+        have hfirst : (M.node fbs dv fns fk).namesList = ns := hns' _ (by simp)
+        have hins : ∀ m', m'.namesList = ns → NamesAgree { L with members := insertAt i m' (M.node fbs dv fns fk :: r) } := by
+          intro m' hm'
+          refine ⟨ns, ?_⟩
+          intro x hx
+          rcases (mem_insertAt i m' x _).mp hx with rfl | hx
+          · exact hm'
+          · exact hns' x hx
+        split
+        · exact ⟨ns, hns⟩
+        · split
+          · exact ⟨ns, hns⟩
+          · rename_i hbs
+            have hbs' : fbs = mbs := by simpa using hbs
+            split
+            · rename_i heq
+              exact hins _ ((by simpa using heq : (M.node mbs mdv mns mkids).namesList = (M.node fbs dv fns fk).namesList).trans hfirst)
+            · split
+              · exact ⟨ns, hns⟩
+              · cases hs : setNamesM (some (M.node fbs dv fns fk).namesList) (.node mbs mdv mns mkids) with
+                | mk m' o =>
+                  cases o with
+                  | err e => exact ⟨ns, hns⟩
+                  | ok =>
+                    apply hins m'
+                    have h1 := setNamesM_ok_namesList _ mbs mdv mns mkids m' hs
+                    rw [h1, hfirst]
+                    simp only [namesAfter]
+                    split
+                    · rename_i hcheck
+                      have hlen : ns.length = mbs.length := by
+                        rw [← hfirst, namesList_length hf.1, hbs']
+                      have hcn : countNone ns = ns.length := by rw [namesCheck_erase hcheck, hlen]
+                      rw [← hlen]; exact (all_none_of_count ns hcn).symm
+                    · rfl
+
 end TdVerif.C01
